@@ -148,6 +148,11 @@ def cases(rng, tier):
     # one key set exported several times: each export is private or public as asked, whatever was exported before
     for calls in (["private", "public"], ["public", "private"], ["private-json", "public-json"], ["public-json", "private", "public"], ["private", "public-json", "private-json"]):
         out.append({"op": "keyset_hist", "kinds": ["RSA-2048", "EC-P-256", "OKP-Ed25519"], "calls": calls})
+    # the same for one key object (as_json / as_dict / as_pem called several times): a private key; and a public-only key, whose private export stays an error
+    for kind in ("RSA-2048", "EC-P-256", "OKP-Ed25519"):
+        for calls in (["private-json", "public-json"], ["public-json", "private-json"], ["private", "public-json", "public", "private-json"], ["public-json", "public-json", "private"]):
+            for holds_private in (True, False):
+                out.append({"op": "key_hist", "kind": kind, "calls": calls, "holds_private": holds_private})
     out.append({"op": "keyset", "kinds": ["RSA-2048", "EC-P-256-lz", "OKP-Ed25519", "oct-16"]})
     out.append({"op": "keyset", "kinds": ["EC-P-521-lz", "OKP-X25519"]})
     return out
@@ -237,6 +242,18 @@ def impl(c):
         ks = KeySet([key])
         return {"exports": {"as_dict": sorted(key.as_dict()), "as_json": sorted(json.loads(key.as_json())), "keyset.as_dict": sorted(ks.as_dict()["keys"][0]),
                             "keyset.as_json": sorted(json.loads(ks.as_json())["keys"][0])}}
+    if op == "key_hist":
+        key = import_in_form(make_key(c["kind"], rng), "object", c["holds_private"], None)
+        res = []
+        for call in c["calls"]:
+            try:
+                d = key.as_dict(is_private=True) if call == "private" else key.as_dict() if call == "public" else json.loads(key.as_json(is_private=True) if call == "private-json" else key.as_json())
+                res.append(sorted(d))
+            except ValueError:
+                res.append("ValueError")
+            except Exception as e:
+                res.append("raised " + type(e).__name__)
+        return {"exports": res}
     if op == "keyset_hist":
         ks = KeySet([import_in_form(make_key(k, rng), "object", True, None) for k in c["kinds"]])
         res = []
@@ -379,6 +396,21 @@ def oracle(c, out):
             bad(f"oct key imported from the text {c['text']!r}: k is {out['k']!r}, the raw key octets encode as {want!r}", kind="member-encoding", member="k", kty="oct", form="str")
         elif out["thumbprint"] != ref_thumbprint({"kty": "oct", "k": want}):
             bad(f"oct key imported from the text {c['text']!r}: thumbprint differs from the independent RFC 7638 value", kind="thumbprint", kty="oct", form="str")
+    elif op == "key_hist":
+        for call, members in zip(c["calls"], out["exports"]):
+            where = f"{call} export #{c['calls'].index(call) + 1} of a {c['kind']} key object ({'private' if c['holds_private'] else 'public-only'}) in the history {c['calls']}"
+            if call.startswith("private"):
+                if not c["holds_private"]:
+                    if members != "ValueError":
+                        bad(f"{where}: a private export of a public-only key is not an error ({members})", kind="private-export-of-public", where="key-history"); break
+                elif isinstance(members, str) or "d" not in members:
+                    bad(f"{where}: no private members ({members})", kind="private-export", where="key-history"); break
+            else:
+                if isinstance(members, str):
+                    bad(f"{where}: {members}", kind="reimport", via="history"); break
+                leak = PRIVATE_ONLY & set(members)
+                if leak:
+                    bad(f"{where} contains private members {sorted(leak)}", kind="private-leak", where="key-history"); break
     elif op == "keyset_hist":
         for call, members in zip(c["calls"], out["exports"]):
             if isinstance(members, str):
